@@ -33,3 +33,26 @@ def rich():
         assert not validate_schema(s)
         _cache['rich'] = s
     return _cache['rich']
+
+
+def with_incremental(schema):
+    """Same schema plus @defer, @stream and @experimental_disableErrorPropagation."""
+    from graphql import GraphQLDeferDirective, GraphQLSchema, GraphQLStreamDirective
+    extra = [GraphQLDeferDirective, GraphQLStreamDirective]
+    try:
+        from graphql.type import GraphQLDisableErrorPropagationDirective
+        extra.append(GraphQLDisableErrorPropagationDirective)
+    except ImportError:
+        pass
+    kw = schema.to_kwargs()
+    names = {d.name for d in kw['directives']}
+    kw['directives'] = list(kw['directives']) + [d for d in extra if d.name not in names]
+    s = GraphQLSchema(**kw)
+    assert not validate_schema(s)
+    return s
+
+
+def rich_inc():
+    if 'rich_inc' not in _cache:
+        _cache['rich_inc'] = with_incremental(rich())
+    return _cache['rich_inc']
